@@ -39,7 +39,7 @@ def goals(tier):
     for fam in ("generic", "kit", "registry"):
         for z in ("group1", "group2", "group3", "match-flank", "outside-match"):
             g.append("{}:origin-in-{}".format(fam, z))
-    return g + ["generic:part-class", "generic:vector", "kit:vector", "registry:vector", "rejected-stays-rejected", "generic:self-overlapping-site", "generic:every-presentation", "generic:assembly-of-a-vector-with-a-lone-site-in-its-backbone"]
+    return g + ["generic:part-class", "generic:vector", "kit:vector", "registry:vector", "rejected-stays-rejected", "generic:self-overlapping-site", "generic:every-presentation", "generic:assembly-of-a-vector-with-a-lone-site-in-its-backbone", "generic:three-prime-overhang-enzyme"]
 
 
 # ---------------------------------------------------------------------------------------------
@@ -82,10 +82,13 @@ def reference(cls, s):
     sp = m["spans"]
     if gen.is_vector_class(cls):
         ov_s, ov_e = m["groups"][3], m["groups"][1]
-        tgt = rm.circ_slice(s, sp[2][1], n - (sp[2][1] - sp[1][0]))
+        if g.three:      # 3' cutters: the retained stretch runs from the end of the upstream overhang to the start of the placeholder
+            tgt = rm.circ_slice(s, sp[3][1], n - (sp[3][1] - sp[2][0]))
+        else:
+            tgt = rm.circ_slice(s, sp[2][1], n - (sp[2][1] - sp[1][0]))
     else:
         ov_s, ov_e = m["groups"][1], m["groups"][3]
-        tgt = rm.circ_slice(s, sp[1][0], sp[2][1] - sp[1][0])
+        tgt = rm.circ_slice(s, sp[2][0], sp[3][1] - sp[2][0]) if g.three else rm.circ_slice(s, sp[1][0], sp[2][1] - sp[1][0])
     ref = (True, ov_s, ov_e, tgt) if nsites <= 2 else None
     return 1, ref, sp
 
@@ -201,8 +204,29 @@ def check_record(st, fam, cls, s, rots, constructions, scn_base):
 
 # ---------------------------------------------------------------------------------------------
 
+def unit_three_prime(st, enz):
+    """signature-typed parts over enzymes that leave 3' overhangs: every rotation, both constructions"""
+    from . import c04
+    g = gen.geometry_of(gen.enzyme(enz))
+    words = gen.overhang_words(g.ov, 3, 2)
+    forbid = [g.site]
+    o5, o3 = words[0], words[1]
+    x, y = gen.word(0, 3, g.off, forbid), gen.word(0, 17, g.off, forbid)
+    mod = gen.mk_module(g, o5, gen.word(0, 9, 4, forbid), o3, gen.word(1, 31, 5, forbid), x=x, y=y)
+    vec = gen.mk_vector(g, o5, o3, gen.word(1, 61, 6, forbid), gen.word(0, 47, 3, forbid), x=x, y=y)
+    for kind, s, sig in (("module", mod, (o5, o3)), ("module", mod, ("N" * g.ov, "N" * g.ov)), ("vector", vec, (o5, o3))):
+        if rm.count_sites(s, g) != 2:
+            st.filtered += 1
+            continue
+        cls = c04.part3(enz, kind, sig)
+        check_record(st, "generic", cls, s, range(len(s)), (">>", "fresh"),
+                     dict(family="three-prime", enz=enz, kind=kind, signature=list(sig), seq=s, cls=cls.__name__))
+        st.goal("generic:three-prime-overhang-enzyme")
+    st.sample(dict(family="three-prime", enz=enz, kind="module", rotation=1, construction=">>"))
+
+
 def units(tier):
-    us = []
+    us = [("three-prime", n) for n in (["BtsI", "BseRI", "MnlI"] if tier == "quick" else [n for n, _ in gen.three_prime_enzymes()])]
     for name, g in gen.enzymes():
         us.append(("generic", name))
     for name, g in gen.degenerate_enzymes():
@@ -355,7 +379,9 @@ def unit_registry(st, lo, hi, tier):
 
 def run_unit(unit, st, tier):
     kind, arg = unit
-    if kind == "generic":
+    if kind == "three-prime":
+        unit_three_prime(st, arg)
+    elif kind == "generic":
         unit_generic(st, arg)
     elif kind == "degenerate":
         M, V = gen.generic_classes(arg)
@@ -372,6 +398,12 @@ def run_unit(unit, st, tier):
 
 def replay(scn, sub, st):
     fam = scn["family"]
+    if fam == "three-prime":
+        from . import c04
+        cls = c04.part3(scn["enz"], scn["kind"], tuple(scn["signature"]))
+        check_record(st, "generic", cls, scn["seq"], [scn.get("rotation", 0)], (scn.get("construction", "fresh"),),
+                     {k: v for k, v in scn.items() if k not in ("rotation", "construction")})
+        return
     if fam == "generic-assembly":
         M, V = gen.generic_classes(scn["enz"])
         pv = part_class(scn["enz"], "vector", tuple(scn["signature"]))
